@@ -12,8 +12,9 @@ Open Scope Z_scope.
 Notation length := List.length.
 
 (* ---------- literal_value ------------------------------------------------ *)
-(* f'QName("{value.text}")', f'XmlDuration("{self.data}")': the text is pasted between
-   double quotes without escaping.  [dq_safe] = the pasted text reads back as itself. *)
+(* f'XmlDuration("{self.data}")', f'XmlPeriod("{self.data}")': the text is pasted between
+   double quotes without escaping.  [dq_safe] = the pasted text reads back as itself.
+   (QName texts are written as an escaped double-quoted literal since /repo 06e145c.) *)
 Definition dq_char_safe (c : N) : bool :=
   negb (N.eqb c 34 || N.eqb c 92 || N.eqb c 10 || N.eqb c 13 || N.eqb c 0
         || (N.leb 55296 c && N.leb c 57343)).
@@ -68,7 +69,7 @@ Fixpoint repr (W : world) (v : value) {struct v} : pyexpr :=
   | VStr s => EStr s
   | VBytes _ b => EBytes b
   | VDecimal s => ECall [lit "Decimal"] [EStr s] []
-  | VQName t => ECall [lit "QName"] [raw_dq t] []
+  | VQName t => ECall [lit "QName"] [EStr t] []       (* double-quoted literal, escaped *)
   | VXml k args off => ECall [xml_name k] (map EInt (xml_repr_args k args off)) []
   | VDuration d => ECall [lit "XmlDuration"] [raw_dq d] []
   | VPeriod d => ECall [lit "XmlPeriod"] [raw_dq d] []
@@ -247,12 +248,10 @@ Definition wf (W : world) (v : value) : bool := forallb (wf_local W) (subs W v).
 Definition g_array_local (v : value) : bool :=
   match v with VTuple (_ :: _) => false | VSet _ (_ :: _) => false | _ => true end.
 (* (G2, members of inner Enums written Inner.MEMBER: repaired in /repo fc8f170, clause deleted) *)
-(* G4 QName text pasted unescaped.  (XmlDuration/XmlPeriod paste their data the same way,
-   but both constructors strip and validate it, so such data is always [dq_safe]: an
-   invariant in [wf_local], not a guard clause — was finding C18-F5 until XmlDuration
-   started stripping its input.) *)
-Definition g_raw_local (v : value) : bool :=
-  match v with VQName t => dq_safe t | _ => true end.
+(* (G4, QName text pasted unescaped: repaired in /repo 06e145c, clause deleted.
+   XmlDuration/XmlPeriod still paste their data unescaped, but both constructors strip and
+   validate it, so such data is always [dq_safe]: an invariant in [wf_local] — was finding
+   C18-F5 until XmlDuration started stripping its input.) *)
 (* G5 an init=False field whose value is not its default cannot be reconstructed *)
 Definition g_init_local (W : world) (v : value) : bool :=
   match v with
@@ -282,13 +281,12 @@ Definition g_names (ps : list import_line) : bool :=
   forallb (fun a => negb (is_builtin (snd a)) && forallb (pair_compatible a) ps) ps.
 
 Definition g_array (W : world) (v : value) : bool := forallb g_array_local (subs W v).
-Definition g_raw (W : world) (v : value) : bool := forallb g_raw_local (subs W v).
 Definition g_init (W : world) (v : value) : bool := forallb (g_init_local W) (subs W v).
 Definition g_imports (W : world) (v : value) : bool := g_names (map import_pair (types W v)).
 Definition g_std (W : world) (v : value) : bool := forallb g_std_local (subs W v).
 
 Definition guard (W : world) (v : value) : bool :=
-  g_array W v && g_imports W v && g_raw W v && g_init W v && g_std W v.
+  g_array W v && g_imports W v && g_init W v && g_std W v.
 
 (* ---------- model of "render, exec in a fresh namespace, compare" ---------- *)
 Definition exec_back (W : world) (v : value) : option value :=
